@@ -35,6 +35,7 @@ var engines = map[string]engineSpec{
 	"e2":  {Name: "e2", Gen: GenE2, Run: RunE2},
 	"e13": {Name: "e13", Gen: GenE13, Run: RunE13},
 	"e3":  {Name: "e3", Gen: GenE3, Run: RunE3},
+	"e4":  {Name: "e4", Gen: GenE4, Run: RunE4},
 }
 
 // propEngines lists the engines whose runs decide a property, with weights.
@@ -43,6 +44,12 @@ var propEngines = map[string][]string{
 	"C08": {"e1", "e2"}, "C09": {"e1", "e2"}, "C10": {"e3"}, "C11": {"e1", "e1", "e1", "e2"}, "C12": {"e1", "e1", "e1", "e2"}, "C13": {"e13", "e13", "e2"}, "C14": {"e1", "e1", "e2"}, "C15": {"e2"}, "C16": {"e2", "e2", "e13"}, "C17": {"e1", "e1", "e2"},
 	"C18": {"e1", "e2"}, "C19": {"e1"}, "C20": {"e2"},
 }
+
+// backlogProps: properties one run in backlogEvery of which is a backlog run (engine E4: thousands of
+// events pile up behind a stalled consumer; slow, so rare).
+var backlogProps = map[string]bool{"C08": true, "C09": true, "C15": true, "C16": true}
+
+const backlogEvery = 400
 
 type ViolationRec struct {
 	Seed      uint64     `json:"seed"`
@@ -156,6 +163,9 @@ func TestWorker(t *testing.T) {
 		idx := first + i*stride
 		seed := seedFor(base, idx)
 		eng := engines[engs[int(idx)%len(engs)]]
+		if backlogProps[prop] && idx%backlogEvery == backlogEvery-1 {
+			eng = engines["e4"]
+		}
 		if statusPath != "" {
 			_ = os.WriteFile(statusPath, []byte(fmt.Sprintf("%d %d %s\n", idx, seed, eng.Name)), 0644)
 		}
